@@ -26,12 +26,14 @@ import (
 	"sort"
 	"strings"
 	"sync"
+	_ "unsafe"
 
 	"golang.org/x/tools/go/analysis"
 	"golang.org/x/tools/go/ast/astutil"
 	"golang.org/x/tools/go/gcexportdata"
 	"golang.org/x/tools/go/packages"
 	"honnef.co/go/tools/config"
+	_ "honnef.co/go/tools/analysis/lint/testutil"
 	"honnef.co/go/tools/go/loader"
 	"honnef.co/go/tools/lintcmd/cache"
 	"honnef.co/go/tools/lintcmd/runner"
@@ -63,6 +65,40 @@ type Edit struct {
 	Pos Pos    `json:"pos"`
 	End Pos    `json:"end"`
 	New []byte `json:"new"` // base64 in JSON
+	// the TextEdit had no End (token.NoPos): End is reported equal to Pos
+	NoEnd bool `json:"noend,omitempty"`
+}
+
+// the repository's own fix applier (the code behind the golden-file tests), unexported
+//
+//go:linkname repoApplyEdits honnef.co/go/tools/analysis/lint/testutil.applyEdits
+func repoApplyEdits(src []byte, edits []runner.TextEdit) []byte
+
+func fnv(b []byte) uint64 {
+	h := uint64(14695981039346656037)
+	for _, c := range b {
+		h ^= uint64(c)
+		h *= 1099511628211
+	}
+	return h
+}
+
+// realApply runs testutil.applyEdits on the edits of a fix; ok=false if it panicked.
+func realApply(src []byte, edits []Edit) (out []byte, ok bool) {
+	defer func() {
+		if r := recover(); r != nil {
+			ok = false
+		}
+	}()
+	var es []runner.TextEdit
+	for _, e := range edits {
+		es = append(es, runner.TextEdit{
+			Position: token.Position{Filename: e.Pos.File, Offset: e.Pos.Off, Line: e.Pos.Line, Column: e.Pos.Col},
+			End:      token.Position{Filename: e.End.File, Offset: e.End.Off, Line: e.End.Line, Column: e.End.Col},
+			NewText:  e.New,
+		})
+	}
+	return repoApplyEdits(src, es), true
 }
 
 type FixOracle struct {
@@ -71,6 +107,8 @@ type FixOracle struct {
 	Dropped  []string `json:"dropped,omitempty"`
 	Added    []string `json:"added,omitempty"`
 	NewSize  int      `json:"newsize"`
+	NewHash  string   `json:"newhash,omitempty"` // fnv64 of the text produced by testutil.applyEdits
+	RealDiff bool     `json:"realdiff,omitempty"` // testutil.applyEdits disagrees with the harness splice
 	OldSize  int      `json:"oldsize"`
 	ParseErr string   `json:"parse_err,omitempty"`
 }
@@ -325,7 +363,15 @@ func (c *checker) tryFix(file string, fix *Fix) *FixOracle {
 		o.Status = "illformed:" + why
 		return o
 	}
-	o.NewSize = len(patched)
+	if real, ok := realApply(src, fix.Edits); !ok {
+		o.RealDiff = true
+		o.NewHash = "panic"
+	} else {
+		o.RealDiff = !bytes.Equal(real, patched)
+		o.NewHash = fmt.Sprint(fnv(real))
+		o.NewSize = len(real)
+		patched = real
+	}
 	af, err := parser.ParseFile(c.fset, file, patched, parser.ParseComments|parser.SkipObjectResolution)
 	if err != nil {
 		o.Status = "parse"
@@ -454,7 +500,13 @@ func runJob(job Job, c cache.Cache, as []*analysis.Analyzer) Out {
 			for _, sf := range d.SuggestedFixes {
 				f := Fix{Msg: sf.Message}
 				for _, e := range sf.TextEdits {
-					f.Edits = append(f.Edits, Edit{Pos: mkPos(e.Position), End: mkPos(e.End), New: e.NewText})
+					ed := Edit{Pos: mkPos(e.Position), End: mkPos(e.End), New: e.NewText}
+					if e.End == (token.Position{}) {
+						// TextEdit without End: an insertion at Pos
+						ed.End = ed.Pos
+						ed.NoEnd = true
+					}
+					f.Edits = append(f.Edits, ed)
 				}
 				if job.TypeCheck && len(f.Edits) > 0 {
 					if !chkTried {
